@@ -16,21 +16,27 @@ import wgmodels
 EXPLANATION = (
     "tools/gen_trace.py regenerates from freeEnergy.py / thermodynamics.py / manager.py "
     "the ODE right-hand side and the spinodal test of tracePhase, the body of its stepping "
-    "loop, the joining of the two sweeps, the range/flag bookkeeping, the stepping loop of "
+    "loop (incl. the overwrite-instead-of-append rule for nodes within 1e-12 T0), the joining "
+    "of the two sweeps, the range/flag bookkeeping, the stepping loop of "
     "findCriticalTemperature with the bracket given to brentq, and how every tracePhase "
-    "call binds its arguments. Coq proves: the ODE keeps a critical point critical (one "
-    "field, any C2 potential); the spinodal test is positivity of ALL Hessian eigenvalues "
-    "(= positive definiteness for two fields; a diagonal test is refuted); every point the "
-    "loop tabulates passed that test at the tabulated field value and carries the potential "
-    "evaluated/minimised there; the tabulated temperatures are strictly sorted; reported "
-    "range = table -/+ 2dT, end flagged iff the table stops short of the (clamped) request; "
-    "a successful Tc search hands brentq a bracket with a sign change inside the coexistence "
-    "range; every tracePhase call keeps spinodal detection on. The closed-form oracle "
-    "(branches, spinodals, Tc, orientation of the quartic family) is itself proved and "
-    "compared with tools/wgmodels.py by certified interval evaluation. The property is then "
+    "call binds its arguments. Coq proves, for ALL behaviours of the external numerics: the "
+    "ODE keeps a critical point critical (one field, any C2 potential); the spinodal test is "
+    "positivity of ALL Hessian eigenvalues (= positive definiteness for two fields, in any "
+    "rotated basis; a diagonal test is refuted); with re-minimisation every entry the loop "
+    "writes passed that test AT the tabulated field value and carries findLocalMinimum's "
+    "potential there (without re-minimisation: _partial -- the re-minimised point itself is "
+    "not tested; that is the model-level source of the known finding); the tabulated "
+    "temperatures are strictly sorted; reported range = table -/+ 2dT, end flagged iff the "
+    "table stops short of the (clamped) request, flags never cleared; a successful Tc search "
+    "hands brentq a bracket with a sign change inside the coexistence range (orientation "
+    "_partial); every tracePhase call keeps spinodal detection on. The closed-form oracle "
+    "(branches, spinodals, Tc, orientation of the quartic family; axis phases of the "
+    "two-field family) is itself proved and compared with tools/wgmodels.py and the traced "
+    "potential by certified interval evaluation; the generated range/flag model is compared "
+    "inside Coq with what the implementation reports on real traces. The property is then "
     "evaluated on the real tracer over one- and two-field closed-form models (rotated field "
-    "basis included): gradient, Hessian, branch identity, free energy, flags, margins, "
-    "interpolation error, Tc.")
+    "basis, three unit systems): gradient, Hessian, branch identity, free energy, flags, "
+    "margins, node spacing, interpolation error, Tc and the brentq bracket.")
 
 logging.getLogger().setLevel(logging.CRITICAL)
 
@@ -217,7 +223,9 @@ def check_table(m, phase, fe, cfg, report):
     # overshoot of the spinodal that the stop test cannot avoid: the last accepted point has a
     # positive smallest eigenvalue of the finite-difference Hessian, so it can only lie beyond
     # the exact spinodal by a rounding-size amount
-    slack = 1e-4 * Ts
+    # (without effective re-minimisation -- BFGS's absolute gtol in small units -- the accepted
+    # gradient error rTol translates into an overshoot of a few rTol, relative)
+    slack = max(1e-4, 30 * rTol) * Ts
     eig_floor = -1e-7 * Ts ** 2
     lo_exist, hi_exist = ph.Tlo - slack, ph.Thi + slack
     # ---- sortedness, no two nodes a few ulp apart ---------------------------------------
@@ -489,6 +497,10 @@ def run_trace_case(ctx, cfg, tag):
             return None
         report("raises", "tracePhase raised %r" % ex, {})
         fe = None
+    except np.linalg.LinAlgError as ex:
+        report("raises-linalgerror-at-spinodal", "tracePhase raised %r instead of stopping at "
+               "the spinodal" % ex, {})
+        fe = None
     except Exception as ex:
         report("raises", "tracePhase raised %r" % ex, {})
         fe = None
@@ -640,6 +652,9 @@ def run_tc_case(ctx, cfg):
             ctx.count("tc_refused_dT", cfg)
             return
         report("tc-raises", "findCriticalTemperature raised %r" % ex, {})
+    except np.linalg.LinAlgError as ex:
+        report("raises-linalgerror-at-spinodal", "findCriticalTemperature raised %r instead of "
+               "stopping the trace at the spinodal" % ex, {})
     except Exception as ex:
         report("tc-raises", "findCriticalTemperature raised %r" % ex, {})
     for lo, hi, flo, fhi in seen_br:
@@ -854,6 +869,14 @@ DIRECTED = [
 ]
 
 
+# findCriticalTemperature tracing both phases itself from a window that extends past both
+# spinodals, in a rotated two-field basis, with and without re-minimisation
+DIRECTED_TC = [
+    {"model": {"model": "twofield", "theta": 0.6, "unit": 1.0}, "Tn": 95.0, "Wmin": 60.0,
+     "Wmax": 118.0, "dT": 0.5, "rTol": 1e-05, "paranoid": par} for par in (False, True)
+]
+
+
 def run(ctx):
     ok = True
     try:
@@ -913,7 +936,7 @@ def run(ctx):
             ctx.log("trace case raised", traceback.format_exc())
             ctx.broken.append("harness: trace case raised %r" % ex)
     ctx.sample(dict(trace_case=cases[0]))
-    tcs = tc_cfgs(rng, ctx.n(12, 120), units)
+    tcs = [dict(c) for c in DIRECTED_TC] + tc_cfgs(rng, ctx.n(12, 120), units)
     for cfg in tcs:
         try:
             run_tc_case(ctx, cfg)
